@@ -35,6 +35,9 @@ CFGS = [
 ]
 KINDS = ["plain", "hot", "toobig", "lateclose", "throttle_close", "throttle_toggle", "stall"]
 FULL = ["full_drain", "full_close", "full_throttle"]
+# kinds added for seeded changes (docs/design.d/pipeline.md "Seeded changes")
+EXTRA = ["flush", "iofault", "bytebudget", "l0throttle", "l0heavy"]
+BIGPAD = 300 << 10      # larger than the WAL's 256 KiB buffer: the record is written through to the file
 
 
 # --------------------------------------------------------------------------- scenarios
@@ -88,6 +91,83 @@ def make_scenario(rng, sid, kind, cfg):
         # slow consumer: the commit worker is held after vlog.write, before applying its batch
         sc["ctl"] = [{"do": "stall", "on": True}, {"do": "wait_calls", "n": rng.randint(2, total // 2), "max_ms": 300},
                      {"do": "sleep_ms", "n": rng.choice([5, 15])}, {"do": "stall", "on": False}]
+    elif kind == "flush":
+        # memtable rotated and flushed to L0 between phases (background compaction paused, so the tables stay in
+        # L0): phase 1 and 2 write, phase 3 starts by reading both keys
+        cfg["pause_compaction"] = True
+        threads = []
+        for t in range(nthreads):
+            ops = []
+            for ph in (1, 2, 3):
+                if ph == 3:
+                    ops += [{"op": "Get", "k": k} for k in rng.sample(KEYS, 2)]
+                for n in range(rng.randint(2, 4)):
+                    x, k = rng.random(), rng.choice(KEYS)
+                    ops.append({"op": "Get", "k": k} if x < 0.25 else
+                               {"op": "Del", "k": k} if x < 0.4 else
+                               {"op": "Set", "k": k, "v": "s%dt%dp%dn%d" % (sid, t + 1, ph, n)})
+                if ph < 3:
+                    ops.append({"op": "Sync", "n": ph})
+            threads.append(ops)
+        sc["threads"], sc["pads"] = threads, {}
+        sc["ctl"] = [{"do": "barrier", "n": 1, "then": [{"do": "flush", "n": 1}]},
+                     {"do": "barrier", "n": 2, "then": [{"do": "flush", "n": 2}]}]
+    elif kind == "iofault":
+        # the k-th write-through of a WAL record fails once (values larger than the WAL buffer, kept inline)
+        cfg.update({"vlog": False, "max_batch_size": 64 << 20, "batch_max_bytes": 64 << 20, "fault_op": "file_write",
+                    "fault_suffix": ".wal", "fault_nth": rng.randint(1, 5)})
+        threads, pads = gen_threads(rng, sid, 3, rng.randint(5, 7), getp=0.4)
+        for ops in threads:
+            for op in ops:
+                if op["op"] == "Set":
+                    op["pad"] = BIGPAD
+                    pads[op["v"]] = BIGPAD
+        sc["threads"], sc["pads"] = threads, pads
+        if rng.random() < 0.5:   # let the first batch coalesce several requests
+            sc["ctl"] = [{"do": "stall", "on": True}, {"do": "wait_calls", "n": 3, "max_ms": 200}, {"do": "sleep_ms", "n": 5},
+                         {"do": "stall", "on": False}]
+    elif kind == "bytebudget":
+        # byte budget of a commit batch (WriteBatchMaxSize) much smaller than the queued payload
+        cfg.update({"vlog": False, "batch_max": 64, "batch_max_bytes": 512})
+        sc["threads"], sc["pads"] = gen_threads(rng, sid, 3, 6)
+        for ops in sc["threads"]:
+            for op in ops:
+                if op["op"] == "Set":
+                    op["pad"] = 200
+                    sc["pads"][op["v"]] = 200
+        burst = [{"do": "stall", "on": True}, {"do": "bulk", "n": rng.randint(20, 40), "k": "bulk", "pad": 200},
+                 {"do": "sleep_ms", "n": 20}, {"do": "stall", "on": False}]
+        sc["ctl"] = burst + [{"do": "sleep_ms", "n": 5}, {"do": "bulk", "n": rng.randint(10, 30), "k": "bulk", "pad": 200}]
+        if rng.random() < 0.5:
+            sc["ctl"] += [{"do": "sleep_ms", "n": 5}, {"do": "close"}]
+    elif kind == "l0throttle":
+        # the real L0 throttle: three L0 tables with NumLevelZeroTables = 1, the throttle re-evaluated as compaction
+        # worker 0 does (on), writers released into it, L0 drained by forced compactions ("another worker"),
+        # background compaction resumed: the throttle has to come off and every writer has to return
+        cfg.update({"pause_compaction": True, "num_l0": 1, "num_compactors": 2, "vlog": False})
+        threads = []
+        for t in range(3):
+            ops = [{"op": "Set", "k": rng.choice(KEYS), "v": "s%dt%dn0" % (sid, t + 1)}, {"op": "Sync", "n": 1}]
+            ops += [{"op": "Set", "k": rng.choice(KEYS), "v": "s%dt%dn%d" % (sid, t + 1, n)} if n % 3 else {"op": "Get", "k": rng.choice(KEYS)}
+                    for n in range(1, 9)]
+            threads.append(ops)
+        sc["threads"], sc["pads"] = threads, {}
+        sc["ctl"] = [{"do": "barrier", "n": 1, "then": [{"do": "flush", "n": 1}, {"do": "flush", "n": 2}, {"do": "flush", "n": 3},
+                                                        {"do": "adjust_throttle"}]},
+                     {"do": "wait_calls", "n": 8, "max_ms": 300}, {"do": "sleep_ms", "n": 10},
+                     {"do": "compact_l0"}, {"do": "pause_compaction", "on": False}]
+        # worker 0 re-evaluates the throttle on its next cycle (trigger or 5 s tick); an engine that only does so after a
+        # compaction of its own keeps the writers parked until some age-based compaction comes along (about a minute)
+        sc["budget_s"] = 30
+    elif kind == "l0heavy":
+        # free-running real throttle: tiny memtable, NumLevelZeroTables 2, 3 compactors, heavy writes on many keys
+        cfg.update({"num_l0": 2, "num_compactors": 3, "mem_size": 1 << 20, "vlog": False, "batch_wait_us": 0})
+        threads = []
+        for t in range(6):
+            threads.append([{"op": "Set", "k": "h%dk%d" % (t, n % 300), "v": "s%dt%dn%d" % (sid, t + 1, n), "pad": 2048}
+                            for n in range(900)])
+        sc["threads"], sc["pads"] = threads, {}
+        sc["budget_s"] = 180
     elif kind in FULL:
         # full queue: worker stalled, more one-shot writers than the ring holds
         sc["threads"], sc["pads"] = gen_threads(rng, sid, 2, 5)
@@ -182,7 +262,7 @@ def project_c34(sc, evs):
         if c["kind"] == "Get":
             if close_at is not None and i > close_at:
                 r = "ANY"
-            elif r not in ("NOTFOUND", "panic", "error"):
+            elif r not in ("NOTFOUND", "panic", "error", "ioerr"):
                 want = max(pads.get(r, 0), len(r) + 1)
                 if e.get("n") != want:
                     r = "corrupt-length"
@@ -205,7 +285,7 @@ def project_c37(sc, evs):
             out.append({"e": "Call", "op": e["op"], "t": e["t"], "kind": e["kind"]})
         elif e["e"] == "Ret":
             r = e["r"]
-            if calls[e["op"]]["kind"] == "Get" and r not in ("NOTFOUND", "panic", "error", "blocked", "hot", "toobig"):
+            if calls[e["op"]]["kind"] == "Get" and r not in ("NOTFOUND", "panic", "error", "blocked", "hot", "toobig", "ioerr"):
                 r = "value"
             out.append({"e": "Ret", "op": e["op"], "t": e["t"], "r": r})
         elif e["e"] == "End":
@@ -338,7 +418,7 @@ def stressed(sc, evs):
             inflight += 1
         elif e["e"] == "Ret":
             inflight -= 1
-            if e["r"] in ("blocked", "hot", "toobig"):
+            if e["r"] in ("blocked", "hot", "toobig", "ioerr"):
                 return True
         elif e["e"] == "Ctl" and e.get("on") and inflight > 0:
             return True
@@ -353,7 +433,7 @@ def run(ctx):
     # ------------------------------------------------------------ scenarios
     rng = ctx.rng
     scs = []
-    per_kind = (6 if quick else 40)
+    per_kind = (5 if quick else 40)
     kinds = list(KINDS)
     for kind in kinds:
         n = per_kind if (pid == "C34" or kind not in ("hot", "toobig", "plain")) else max(2, per_kind // 2)
@@ -363,6 +443,15 @@ def run(ctx):
     for j in range(nfull):
         for kind in FULL:
             scs.append(make_scenario(rng, len(scs) + 1, kind, CFGS[(j + ctx.seed) % len(CFGS)]))
+    # l0throttle / l0heavy move tables out of L0: reads there are C01's business (known finding C01-ingest-tie), C37 only
+    extra = ({"flush": 3, "iofault": 3, "bytebudget": 1} if pid == "C34" else {"flush": 1, "iofault": 2, "bytebudget": 3, "l0throttle": 1})
+    if not quick:
+        extra = {k: 8 * v for k, v in extra.items()}
+        if pid == "C37":
+            extra.update({"l0throttle": 3, "l0heavy": 2})
+    for kind, n in extra.items():
+        for j in range(n):
+            scs.append(make_scenario(rng, len(scs) + 1, kind, CFGS[(j + ctx.seed + len(kind)) % len(CFGS)]))
     scs += fixed_scenarios(len(scs) + 1)
     # single-thread history used for the C34 negative control (swap two Get replies)
     ctl_id = len(scs) + 1
@@ -386,6 +475,11 @@ def run(ctx):
             for need in ("worker-parked-afterVlog", "writer-parked-beforePush", "closer-parked-afterFlag"):
                 if not notes.get(need):
                     raise Undecided("gated replay could not force its schedule (%s): verif yield points missing?" % need)
+        if by_id[s]["kind"] in ("flush", "l0throttle"):
+            notes = [(e["what"], e["on"]) for e in traces[s] if e["e"] == "Ctl"]
+            bad = [w for w, on in notes if not on and w != "pause-compaction"]
+            if bad or not notes:
+                raise Undecided("staged scenario %d (%s) could not be set up: %s" % (s, by_id[s]["kind"], bad))
     # ------------------------------------------------------------ M3
     proj = project_c34 if pid == "C34" else project_c37
     module = "RegisterPropTrace" if pid == "C34" else "CallsReturn"
@@ -395,37 +489,38 @@ def run(ctx):
     hang_by_sid = {h["s"]: h for h in hangs}
     # C37: calls that did not return within the budget.  A verdict needs a second, independent hang of the same
     # scenario and pending calls parked inside engine code in both dumps of both executions.
-    confirmed, unconfirmed = {}, []
+    unconfirmed = []
+    hang_runs = {}            # sid -> Hang events of its executions (first run, then re-executions)
     if pid == "C37" and hangs:
-        todo = [by_id[h["s"]] for h in hangs][:6]
         for h in hangs:
-            ctx.log("scenario %d (%s): calls did not return within %ds: %s" % (h["s"], by_id[h["s"]]["kind"], h["budget_s"], h["pending"]))
+            h["parked"] = parked_in_engine(h)
+            hang_runs.setdefault(h["s"], []).append(h)
+            ctx.log("scenario %d (%s): calls did not return within %ds: %s%s" % (
+                h["s"], by_id[h["s"]]["kind"], h["budget_s"], h["pending"][:6], "" if h["parked"] else " (not parked in engine code; control step %s)" % h.get("ctl_step")))
         for attempt in (1, 2):
+            todo = [by_id[sid] for sid, hs in list(hang_runs.items())[:6] if sum(1 for h in hs if h["parked"]) < 2]
             if not todo:
                 break
             ctx.log("re-executing %d hung scenario(s), attempt %d" % (len(todo), attempt))
             _, again = run_driver(ctx, todo)
             for h2 in again:
-                confirmed[h2["s"]] = h2
-            todo = [sc for sc in todo if sc["id"] not in confirmed]
-        unconfirmed = [h["s"] for h in hangs if h["s"] not in confirmed]
+                h2["parked"] = parked_in_engine(h2)
+                hang_runs[h2["s"]].append(h2)
+        for sid, hs in hang_runs.items():
+            good = [h for h in hs if h["parked"]]
+            if len(good) < 2:
+                unconfirmed.append(sid)
+                ctx.notes.append("scenario %d: %d execution(s) hung, %d with the pending calls parked in engine code" % (sid, len(hs), len(good)))
+                continue
+            sc = by_id[sid]
+            rp = ctx.save_replay("violation-%d.json" % sid, {"scenario": sc, "hangs": good[:2], "trace": traces[sid]})
+            ctx.violation(rp, "call never returns (reproduced, parked in engine code): %s; %s (scenario %d, %s)" % (
+                good[0]["pending"][:4], "; ".join(sorted(set(good[1]["parked"]))[:4]), sid, sc["kind"]))
     for (ti, line, pev, want) in rejected:
         sid = order[ti]
         sc = by_id[sid]
         if pid == "C37" and sid in hang_by_sid and pev.get("e") == "End":
-            if sid not in confirmed:
-                continue
-            h1, h2 = hang_by_sid[sid], confirmed[sid]
-            p1, p2 = parked_in_engine(h1), parked_in_engine(h2)
-            if not p1 or not p2:
-                unconfirmed.append(sid)
-                ctx.notes.append("scenario %d hung twice but the pending calls are not parked in engine code (%s / %s)" % (sid, p1, p2))
-                continue
-            rp = ctx.save_replay("violation-%d.json" % sid, {"scenario": sc, "hang_first": h1, "hang_second": h2,
-                                                             "parked_first": p1, "parked_second": p2, "trace": traces[sid]})
-            ctx.violation(rp, "call never returns (reproduced, parked in engine code): %s; %s (scenario %d, %s)" % (
-                h1["pending"][:4], "; ".join(sorted(set(p2))[:4]), sid, sc["kind"]))
-            continue
+            continue          # decided by the hang rule above
         full = traces[sid]
         rp = ctx.save_replay("violation-%d.json" % sid, {"scenario": sc, "rejected_line": line, "event": pev, "projected": tl[ti], "trace": full})
         if pid == "C34":
@@ -458,7 +553,7 @@ def run(ctx):
         controls = [("swapped Get replies", swapped)]
         # a read observing a write that reported an error
         for ti, t in enumerate(tl):
-            failed = [e for e in t if e["e"] == "Call" and e["kind"] == "Set" and e["res"] in ("hot", "toobig", "blocked")]
+            failed = [e for e in t if e["e"] == "Call" and e["kind"] == "Set" and e["res"] in ("hot", "toobig", "blocked", "ioerr")]
             later = [i for i, e in enumerate(t) if e["e"] == "Call" and e["kind"] == "Get" and failed and e["k"] == failed[0]["k"]
                      and e["res"] not in ("ANY", "PENDING") and e["op"] > failed[0]["op"]]
             if failed and later:
@@ -497,7 +592,7 @@ def run(ctx):
         calls = {e["op"]: e for e in traces[s] if e["e"] == "Call"}
         for e in traces[s]:
             if e["e"] == "Ret":
-                r = e["r"] if e["r"] in ("ok", "hot", "toobig", "blocked", "NOTFOUND", "panic", "error") else "value"
+                r = e["r"] if e["r"] in ("ok", "hot", "toobig", "blocked", "ioerr", "NOTFOUND", "panic", "error") else "value"
                 k = calls[e["op"]]["kind"] + ":" + r
                 replies[k] = replies.get(k, 0) + 1
     nontriv = overlapping_rw if pid == "C34" else (lambda evs: stressed(None, evs))
